@@ -595,6 +595,8 @@ def oracle(case, res):
     if res["percent"] != 99.99:
         v.append(("C18:ADC:percent", f"full-scale range estimated with {res['percent']!r} %"))
     v += _sint_oracle(xs, res["percent"], vmin, vmax, "ADC-range")
+    if not _finite(vmin, vmax):
+        return v                # already reported as C18:ADC-range:non-finite
     out = res["out"]
     if len(out) != N or res["shape"] != [N]:
         v.append(("C18:ADC:length", f"{len(out)} output samples (shape {res['shape']}) for {N} input samples"))
